@@ -102,7 +102,7 @@ def c01_cases(ctx):
         ctx.add("q%d" % k, ops, kind="rt", data=data)
     # symbol statistics that drive the Huffman length limiter (optimal depth > 15) at every kind of level
     for j in range(4 if not thorough else 24):
-        data = fib_data(rng, M=[1, 8, 64, None][j % 4])
+        data = fib_data(rng, M=[64, 64, 0, None][j % 4])
         ops = ["in %s" % hx(data)] + ["cvecrt %d %d @" % (level, rng.below(2)) for level in ([1, 2, 6, 9] if not thorough else range(1, 11))]
         k += 1
         ctx.add("f%d" % k, ops, kind="rt", data=data)
